@@ -84,7 +84,7 @@ let () =
           let (args, _) = parse_toks rest in
           Buffer.clear b;
           Buffer.add_string b id;
-          (match Model.run (coq_string op) args with
+          (match Model.dispatch (coq_string op) args with
            | None -> Buffer.add_string b " unknown-op"
            | Some (Model.Ok l) -> Buffer.add_string b " ok";
                             List.iter (fun t -> Buffer.add_char b ' '; print_tok b t) l
